@@ -272,7 +272,9 @@ def _jobserver_case(args):
         out["max_running"] = o.get("max_running", 0)
         # C05 under a jobserver: with an unlimited failure budget every statement that does not depend on a failed one is
         # still started (a failed command's slot goes back to the pool like any other)
-        if op.get("faults") and op.get("k") == 0 and sig_at is None and not o.get("hang") and not o.get("timeout"):
+        # (a child that dies of the interrupt signal is an interruption of the build by ninja's convention: exit 130, nothing more starts)
+        if op.get("faults") and op.get("k") == 0 and sig_at is None and not o.get("hang") and not o.get("timeout") \
+                and not any(f.get("signal") for f in op["faults"].values()) and o.get("exit") != 130:
             v0 = sc["variants"][0]
             failing = set(op["faults"])
             producer = {}
